@@ -33,6 +33,7 @@ WORLD_TIMEOUT = 900
 WORLD_PIPE = None
 CONTEXT_OPS = ()
 SALTS = 4
+DET_RUNS = 4
 SCREEN_ATTEMPTS = 6
 SWEEP_N = 110
 
@@ -122,7 +123,7 @@ FAMILIES = [
 
 def plan(prop, tier, seed):
     specs = []
-    n, steps = (16, 450) if tier == "quick" else (80, 900)
+    n, steps = (16, 380) if tier == "quick" else (80, 900)
     for i in range(n):
         specs.append({"kind": "random", "seed": run_seed(seed, prop, tier, i), "steps": steps, "want_sample": i < 2, "family": (i + seed) % len(FAMILIES)})
     # guided layer: polluter x victim spec pairs per ISA; quick = a seeded slice
@@ -130,7 +131,7 @@ def plan(prop, tier, seed):
     for name in ISAS:
         parts = 1 if tier == "quick" else 2
         for p in range(parts):
-            specs.append({"kind": "pairs", "isa": name, "part": p, "parts": parts, "budget": 600 if tier == "quick" else 3000, "seed": run_seed(seed, prop, tier + "-pairs", k)})
+            specs.append({"kind": "pairs", "isa": name, "part": p, "parts": parts, "budget": 450 if tier == "quick" else 3000, "seed": run_seed(seed, prop, tier + "-pairs", k)})
             k += 1
     return specs
 
@@ -1181,7 +1182,7 @@ def run_pairs(spec):
         P = []
         mine = S[spec["part"] :: spec["parts"]]
         for p in mine:
-            for attempt in range(SCREEN_ATTEMPTS):
+            for attempt in range(SCREEN_ATTEMPTS if len(S) <= 400 or spec.get("tier") == "thorough" else 4):
                 # (several operand templates: what an instruction writes may depend on a small
                 # field of its encoding -- a condition code, an addressing form)
                 T = rng.getrandbits(128)
